@@ -221,15 +221,15 @@ macro_rules! narrow_concrete {
         }
     };
 }
-// @h props=C06,C04 tier=quick family=T mem=8 timeout=1800 role=rsnarrow.concrete.all_ones
+// @h props=C06:t,C04:t tier=thorough family=T optional=yes mem=45 timeout=3600 role=rsnarrow.concrete.all_ones
 // @bound RSNarrow::new on the concrete all-ones vector of 1536 bits (3 lines, two hint periods): layout, admissible hints, rank1 for every position (symbolic); select through this directory is the stage harness
 // @funcs RSNarrow::new, RSNarrow::rank1, RSNarrow::select1, RSNarrow::select0, RSNarrow::n_ones, RSNarrow::sub_block_rank
 narrow_concrete!(c06_narrow_concrete_ones1536, 3, 1536, 0, 27);
-// @h props=C06,C04 tier=quick family=T mem=8 timeout=1800 role=rsnarrow.concrete.tail_cross
+// @h props=C06:t,C04:t tier=thorough family=T optional=yes mem=45 timeout=3600 role=rsnarrow.concrete.tail_cross
 // @bound RSNarrow::new on 452 zeros followed by 1030 ones (1482 bits: the 1024-th one lies in the last word of the vector)
 // @funcs RSNarrow::new, RSNarrow::rank1, RSNarrow::select1, RSNarrow::select0
 narrow_concrete!(c06_narrow_concrete_tail_cross, 3, 1482, 452, 27);
-// @h props=C06 tier=quick family=T mem=8 timeout=1800 role=rsnarrow.concrete.zeros_then_ones
+// @h props=C06 tier=thorough family=T optional=yes mem=45 timeout=3600 role=rsnarrow.concrete.zeros_then_ones
 // @bound RSNarrow::new on 1100 zeros followed by 60 ones (1160 bits: the zeros cross a hint period)
 // @funcs RSNarrow::new, RSNarrow::rank1, RSNarrow::select1, RSNarrow::select0
 narrow_concrete!(c06_narrow_concrete_zeros1100, 3, 1160, 1100, 27);
@@ -365,3 +365,60 @@ fn c06_narrow_empty() {
     core::mem::forget(built);
     core::mem::forget(dflt);
 }
+
+// ------------------------------------------------------------------ rank on assembled states
+
+macro_rules! narrow_rank_assembled {
+    ($name:ident, $offs:expr, $k:expr, $unw:expr) => {
+        #[kani::proof]
+        #[kani::unwind($unw)]
+        fn $name() {
+        let (words, n) = any_words::<1>();
+        let pairs: [u64; 6] = kani::any();
+        kani::assume(pairs[0] < (1 << 44) && pairs[2] < (1 << 44) && pairs[4] < (1 << 44));
+        kani::assume(pairs[1] >> 63 == 0 && pairs[3] >> 63 == 0 && pairs[5] >> 63 == 0);
+        let rs = assemble(&pairs, &[0, 2], &[0, 2], mk_imm::<1>(&words, n));
+        // positions i = 64*wd + cnt with the word index symbolic and the in-word offset enumerated concretely: a
+        // symbolic shift amount under a pop-count is what did not finish (1200 s); with cnt concrete the shift is a rewiring
+        let wd: usize = kani::any();
+        kani::assume(wd < 8);
+        let offs: [usize; $k] = $offs;
+        let mut t = 0usize;
+        while t < $k {
+            let cnt = offs[t];
+            let i = 64 * wd + cnt;
+            if i <= n {
+                let low = if cnt == 64 { words[wd] } else { words[wd] & ((1u64 << cnt) - 1) };
+                let exp = rs.sub_block_rank(wd) + low.count_ones() as usize;
+                assert!(rs.rank1(i) == Some(exp));
+                assert!(unsafe { rs.rank1_unchecked(i) } == exp);
+                if exp <= i {
+                    assert!(rs.rank0(i) == Some(i - exp));
+                    assert!(unsafe { rs.rank0_unchecked(i) } == i - exp);
+                }
+            }
+            t += 1;
+        }
+        assert!(rs.rank1(0) == Some(0));
+        assert!(unsafe { rs.rank1_unchecked(0) } == 0);
+        assert!(unsafe { rs.rank0_unchecked(0) } == 0);
+        let i: usize = kani::any();
+        if i > n {
+            assert!(rs.rank1(i).is_none() && rs.rank0(i).is_none());
+        }
+        let g = rs.get(i);
+        assert!(g == if i < n { Some(bit(&words, i)) } else { None });
+        kani::cover!(i == usize::MAX, "largest position");
+        kani::cover!(wd == 7 && n == 512, "last word of a full line");
+        core::mem::forget(rs);
+        }
+    };
+}
+// @h props=C06,C04,C10 tier=quick family=A prof=A mem=5 timeout=1800 role=rsnarrow.rank.assembled
+// @bound RSNarrow assembled over any bit vector of 1..=512 bits and an ARBITRARY directory: rank1(i) = sub_block_rank(word) + ones among the first cnt bits of that word, for i = 64*word + cnt with the word symbolic and cnt in {1, 2, 32, 63, 64}; rank1(0) = 0 (also unchecked); None past the end; rank0 and the unchecked forms agree
+// @funcs RSNarrow::rank1, RSNarrow::rank1_unchecked, RSNarrow::rank0, RSNarrow::rank0_unchecked, RSNarrow::get
+narrow_rank_assembled!(c06_narrow_rank_assembled_l1, [1, 2, 32, 63, 64], 5, 20);
+// @h props=C06,C10:t tier=thorough family=A optional=yes mem=30 timeout=3600 role=rsnarrow.rank.assembled
+// @bound the same for every in-word offset cnt in 1..=64 (a symbolic offset under the pop-count did not finish in 1200 s, so the offsets are enumerated)
+// @funcs RSNarrow::rank1, RSNarrow::rank1_unchecked
+narrow_rank_assembled!(c06_narrow_rank_assembled_l1_all, [1, 2, 3, 4, 5, 6, 7, 8, 9, 10, 11, 12, 13, 14, 15, 16, 17, 18, 19, 20, 21, 22, 23, 24, 25, 26, 27, 28, 29, 30, 31, 32, 33, 34, 35, 36, 37, 38, 39, 40, 41, 42, 43, 44, 45, 46, 47, 48, 49, 50, 51, 52, 53, 54, 55, 56, 57, 58, 59, 60, 61, 62, 63, 64], 64, 66);
